@@ -183,3 +183,24 @@ Proof.
   - intros u Hu0 Hu1. rewrite (huff_descend t Ct N 0 u) by (try assumption; rewrite T; lra).
     f_equal. apply huff_sample_ext. ring.
 Qed.
+
+(* ---------- corollaries: index in range, a zero-probability state is never returned ---------- *)
+Lemma segs_from_labels p : forall i l, In l (map snd (segs_from i p)) -> (i <= l < i + Z.of_nat (length p))%Z.
+Proof.
+  induction p as [|x r IH]; intros i l H; simpl in H; [contradiction|].
+  destruct H as [<-|H]; [simpl length; lia|]. apply IH in H. simpl length. lia.
+Qed.
+
+Theorem huffman_range_nonzero (p : list Q) : (1 <= length p)%nat -> nonneg p -> forall t, create_huffman p = Some t ->
+  forall u, 0 <= u -> u < qsum p ->
+    (0 <= huff_sample t u < Z.of_nat (length p))%Z /\ ~ nth (Z.to_nat (huff_sample t u)) p 0 == 0.
+Proof.
+  intros HK Hnn t Ht u H0 H1. destruct (huffman_law p HK Hnn) as (t' & Ht' & Pm & Len & _ & Nn & Loc).
+  rewrite Ht in Ht'. inversion Ht'; subst t'. pose proof (Loc u H0 H1) as L.
+  assert (R : (0 <= huff_sample t u < Z.of_nat (length p))%Z).
+  { pose proof (locate_in _ _ _ _ L) as Hin. apply (Permutation_in _ (Permutation_map snd Pm)) in Hin.
+    apply segs_from_labels in Hin. lia. }
+  split; [exact R|]. intro Hz.
+  apply (locate_never_zero 0 (hleaves t) u (huff_sample t u)); [assumption | assumption | | assumption].
+  rewrite <- (Z2Nat.id (huff_sample t u)) at 1 by lia. rewrite Len by lia. exact Hz.
+Qed.
